@@ -628,14 +628,34 @@ func init() {
 		Floor: 1,
 		Run: func(c *Ctx, s *core.Sink) {
 			appended := map[string]token.Pos{}
+			clippedAppend := map[string]token.Pos{}
+			clippedIn := map[string]*ssa.Function{}
 			for _, f := range c.P.ModFns {
 				for _, b := range f.Blocks {
 					for _, ins := range b.Instrs {
 						if call, ok := ins.(*ssa.Call); ok {
 							if bi, ok := call.Common().Value.(*ssa.Builtin); ok && bi.Name() == "append" {
-								if ld, ok := call.Common().Args[0].(*ssa.UnOp); ok {
+								arg0 := call.Common().Args[0]
+								clipped := false
+								if sl, ok := arg0.(*ssa.Slice); ok {
+									clipped = sl.Max != nil
+									arg0 = sl.X
+								}
+								if ld, ok := arg0.(*ssa.UnOp); ok {
 									if fa, ok := ld.X.(*ssa.FieldAddr); ok {
-										appended[fieldElem(fa.X.Type(), fa.Field)] = call.Pos()
+										el := fieldElem(fa.X.Type(), fa.Field)
+										appended[el] = call.Pos()
+										// append(x.f[:n:n], …) stored back into x.f: grows by reallocating every time
+										if clipped {
+											for _, r := range *call.Referrers() {
+												if st, ok := r.(*ssa.Store); ok {
+													if fa2, ok := st.Addr.(*ssa.FieldAddr); ok && fieldElem(fa2.X.Type(), fa2.Field) == el {
+														clippedAppend[el] = call.Pos()
+														clippedIn[el] = f
+													}
+												}
+											}
+										}
 									}
 								}
 							}
@@ -670,6 +690,10 @@ func init() {
 						}
 					}
 				}
+			}
+			for el, p := range clippedAppend {
+				bad[el] = true
+				s.Bad("cap/"+core.FuncName(clippedIn[el])+"/"+el, c.P.Pos(p), "the field "+el+" grows by append on a capacity-clipped view of itself (x[:n:n]): every append reallocates and copies the whole slice, so building n elements costs n² copies")
 			}
 			for _, el := range els {
 				if !bad[el] {
